@@ -145,6 +145,8 @@ struct World {
     in_sweep: bool,
     // measurement runs (ring): skip the oracles whose cost is linear per destructor
     fast: bool,
+    // alternative API routes for the same model action (histories whose id starts with "rt_"): 0 = off
+    route: u64,
 }
 
 static mut W: Option<World> = None;
@@ -479,6 +481,31 @@ unsafe fn check_discipline() {
     }
 }
 
+/// which of `n` equivalent API routes implements the next model action (0 = the canonical one)
+fn route(n: u64) -> u64 {
+    let w = w();
+    if w.route == 0 {
+        return 0;
+    }
+    w.route = w.route.wrapping_mul(6364136223846793005).wrapping_add(1442695040888963407) | 1;
+    (w.route >> 33) % n
+}
+
+/// `Rc::new` and the constructors documented as equivalent to it
+unsafe fn make_rc(node: Node) -> Rc<Node> {
+    match route(5) {
+        0 => Rc::new(node),
+        1 => Rc::from(Box::new(node)),
+        2 => {
+            let mut u = Rc::<Node>::new_uninit();
+            Rc::get_mut(&mut u).unwrap().as_mut_ptr().write(node);
+            u.assume_init()
+        }
+        3 => Rc::from(node),
+        _ => std::pin::Pin::into_inner(Rc::pin(node)),
+    }
+}
+
 unsafe fn new_node(dst: usize, script: u32) -> Res {
     if !reg_free(dst) {
         return Res::Inv;
@@ -500,7 +527,7 @@ unsafe fn new_node(dst: usize, script: u32) -> Res {
     let id = w.next_id;
     w.next_id += 1;
     w.alive.push(true);
-    let rc = Rc::new(Node { id, script, slots: UnsafeCell::new(empty_slots()) });
+    let rc = make_rc(Node { id, script, slots: UnsafeCell::new(empty_slots()) });
     register_box(&rc, id);
     *reg(dst) = Reg::Strong(rc, id);
     Res::Unit
@@ -515,7 +542,18 @@ pub unsafe fn exec_act(a: &Act, me: Option<*mut Node>) -> Res {
             if !reg_free(dst) {
                 return Res::Inv;
             }
-            let c = Rc::clone(&*p);
+            let c = match route(2) {
+                0 => Rc::clone(&*p),
+                _ => {
+                    // documented equivalent: one more strong count on the value pointer, then from_raw
+                    let raw = Rc::as_ptr(&*p);
+                    Rc::increment_strong_count(raw);
+                    Rc::from_raw(raw)
+                }
+            };
+            if Rc::as_ptr(&c) != Rc::as_ptr(&*p) {
+                set_oracle(format!("C06:as_ptr-differs-after-clone:{}", id));
+            }
             *reg(dst) = Reg::Strong(c, id);
             Res::Unit
         }
@@ -527,12 +565,24 @@ pub unsafe fn exec_act(a: &Act, me: Option<*mut Node>) -> Res {
                 Reg::Strong(..) | Reg::Loose(..) => {
                     check_discipline();
                     let x = std::mem::replace(&mut *reg(r), Reg::Empty);
-                    drop(x);
+                    match x {
+                        Reg::Strong(rc, _) if route(2) == 1 => {
+                            // documented equivalent of dropping one handle
+                            Rc::decrement_strong_count(Rc::into_raw(rc));
+                        }
+                        x => drop(x),
+                    }
                     Res::Unit
                 }
                 Reg::Weak(..) => {
                     let x = std::mem::replace(&mut *reg(r), Reg::Empty);
-                    drop(x);
+                    match x {
+                        Reg::Weak(wk, _) if route(2) == 1 => {
+                            let raw = wk.into_raw();
+                            drop(Weak::from_raw(raw));
+                        }
+                        x => drop(x),
+                    }
                     Res::Unit
                 }
                 _ => Res::Inv,
@@ -544,6 +594,9 @@ pub unsafe fn exec_act(a: &Act, me: Option<*mut Node>) -> Res {
                 return Res::Inv;
             }
             let wk = Rc::downgrade(&*p);
+            if wk.as_ptr() != Rc::as_ptr(&*p) {
+                set_oracle(format!("C06:as_ptr-differs-after-downgrade:{}", id));
+            }
             *reg(dst) = Reg::Weak(wk, id as i64);
             Res::Unit
         }
@@ -565,6 +618,9 @@ pub unsafe fn exec_act(a: &Act, me: Option<*mut Node>) -> Res {
                     if id < 0 || !w().alive[id as usize] {
                         set_oracle(format!("C05:upgrade-resurrects:{}", id));
                     }
+                    if Rc::as_ptr(&rc) != (*p).as_ptr() {
+                        set_oracle(format!("C06:as_ptr-differs-after-upgrade:{}", id));
+                    }
                     *reg(dst) = Reg::Strong(rc, id as u32);
                     Res::Some_
                 }
@@ -575,7 +631,13 @@ pub unsafe fn exec_act(a: &Act, me: Option<*mut Node>) -> Res {
             if !reg_free(dst) {
                 return Res::Inv;
             }
-            let wk = (*p).clone();
+            let wk = match route(2) {
+                0 => (*p).clone(),
+                _ => Weak::from_raw((*p).clone().into_raw()),
+            };
+            if !wk.ptr_eq(&*p) || wk.as_ptr() != (*p).as_ptr() {
+                set_oracle(format!("C06:weak-identity-differs-after-clone:{}", id));
+            }
             *reg(dst) = Reg::Weak(wk, id);
             Res::Unit
         }
@@ -583,7 +645,7 @@ pub unsafe fn exec_act(a: &Act, me: Option<*mut Node>) -> Res {
             if !reg_free(dst) {
                 return Res::Inv;
             }
-            *reg(dst) = Reg::Weak(Weak::new(), -1);
+            *reg(dst) = Reg::Weak(if route(2) == 0 { Weak::new() } else { Weak::default() }, -1);
             Res::Unit
         }
         Act::Store(src, o, k) => {
@@ -819,7 +881,12 @@ pub unsafe fn exec_act(a: &Act, me: Option<*mut Node>) -> Res {
                 set_fault("valuemoved", id as i64);
                 return Res::Nat(0);
             }
-            let got = (**p).id;
+            let got = match route(4) {
+                0 => (**p).id,
+                1 => AsRef::<Node>::as_ref(&*p).id,
+                2 => std::borrow::Borrow::<Node>::borrow(&*p).id,
+                _ => (*Rc::as_ptr(&*p)).id,
+            };
             if got == POISON || !w().alive[id as usize] {
                 set_fault("valuemoved", id as i64);
                 return Res::Nat(0);
@@ -1228,6 +1295,7 @@ fn reset_world(pad: usize) {
             links_buf: Vec::with_capacity(64),
             in_sweep: false,
             fast: false,
+            route: 0,
         });
         crate::LIVE_BLOCKS = 0;
     }
@@ -1235,6 +1303,14 @@ fn reset_world(pad: usize) {
 
 fn run_history(id: &str, mode: &str, body: &str, pad: usize, out: &mut impl Write) {
     reset_world(pad);
+    if id.starts_with("rt_") {
+        // routed history: the route choices are a function of the id alone, so a replay repeats them
+        let mut hsh: u64 = 0xcbf29ce484222325;
+        for b in id.bytes() {
+            hsh = (hsh ^ b as u64).wrapping_mul(0x100000001b3);
+        }
+        w().route = hsh | 1;
+    }
     let mut scripts = Vec::new();
     let ops: Vec<Act> = body
         .split(';')
